@@ -7,26 +7,45 @@ use std::sync::atomic::{AtomicU64, Ordering::Relaxed};
 pub static ALLOC_EVENTS: AtomicU64 = AtomicU64::new(0);
 pub static ALLOC_BYTES: AtomicU64 = AtomicU64::new(0);
 
+thread_local! {
+    /// per-thread event count (for measurements made while other threads run)
+    static TL_EVENTS: std::cell::Cell<u64> = const { std::cell::Cell::new(0) };
+}
+
+#[inline]
+fn tl_bump() {
+    let _ = TL_EVENTS.try_with(|c| c.set(c.get() + 1));
+}
+
+/// Allocator events performed by the calling thread.
+pub fn thread_events() -> u64 {
+    TL_EVENTS.try_with(|c| c.get()).unwrap_or(0)
+}
+
 pub struct Counting;
 
 // SAFETY: delegates to System; only adds counting.
 unsafe impl GlobalAlloc for Counting {
     unsafe fn alloc(&self, l: Layout) -> *mut u8 {
         ALLOC_EVENTS.fetch_add(1, Relaxed);
+        tl_bump();
         ALLOC_BYTES.fetch_add(l.size() as u64, Relaxed);
         System.alloc(l)
     }
     unsafe fn dealloc(&self, p: *mut u8, l: Layout) {
         ALLOC_EVENTS.fetch_add(1, Relaxed);
+        tl_bump();
         System.dealloc(p, l)
     }
     unsafe fn alloc_zeroed(&self, l: Layout) -> *mut u8 {
         ALLOC_EVENTS.fetch_add(1, Relaxed);
+        tl_bump();
         ALLOC_BYTES.fetch_add(l.size() as u64, Relaxed);
         System.alloc_zeroed(l)
     }
     unsafe fn realloc(&self, p: *mut u8, l: Layout, n: usize) -> *mut u8 {
         ALLOC_EVENTS.fetch_add(1, Relaxed);
+        tl_bump();
         ALLOC_BYTES.fetch_add(n as u64, Relaxed);
         System.realloc(p, l, n)
     }
